@@ -226,6 +226,10 @@ def run_property(prop, tier, seed):
             r["result"] = "inconclusive"
             results.append(r)
             continue
+        for side, summ in (("A", s_a), ("B", s_b)):
+            for mc in j.get("must_cover", []):
+                if not summ.get("covers", {}).get(mc):
+                    inconclusive.append("%s: vacuity witness '%s' not reached on build %s" % (h, mc, side))
         pa, pb = load_paths(sa, h), load_paths(sb, h)
         cands, stats, inc = product_check(h, pa, pb)
         r.update({"product": stats})
